@@ -656,7 +656,13 @@ func (l *LanguageServer) StartConfigWorker(ctx context.Context) {
 
 			//nolint:contextcheck
 			go func() {
-				if l.getLoadedConfig().Features.Remote.CheckVersion &&
+				// the config may have been dropped again by the time this runs
+				cfg := l.getLoadedConfig()
+				if cfg == nil || cfg.Features == nil || cfg.Features.Remote == nil {
+					return
+				}
+
+				if cfg.Features.Remote.CheckVersion &&
 					os.Getenv(update.CheckVersionDisableEnvVar) != "" {
 					update.CheckAndWarn(update.Options{
 						CurrentVersion: version.Version,
